@@ -67,14 +67,15 @@ type Result struct {
 
 // Case is handed to a property's Run function inside a worker process.
 type Case struct {
-	Prop  string
-	Tier  string
-	Seed  uint64
-	Index int
-	Rng   *rand.Rand
-	res   *Result
-	steps *os.File
-	mu    sync.Mutex // Step and Count are also called from monitors running in other goroutines (fault plans, hook listeners, concurrent clients)
+	Prop   string
+	Tier   string
+	Seed   uint64
+	Index  int
+	Rng    *rand.Rand
+	res    *Result
+	steps  *os.File
+	closed bool       // the case has returned its result
+	mu     sync.Mutex // Step and Count are also called from monitors running in other goroutines (fault plans, hook listeners, concurrent clients)
 }
 
 // Step records a step of the case script *before* it is executed (crash witness).
@@ -82,6 +83,9 @@ func (c *Case) Step(format string, a ...interface{}) {
 	s := fmt.Sprintf(format, a...)
 	c.mu.Lock()
 	defer c.mu.Unlock()
+	if c.closed {
+		return
+	}
 	c.res.Script = append(c.res.Script, s)
 	if c.steps != nil {
 		c.steps.WriteString(s + "\n")
@@ -92,6 +96,9 @@ func (c *Case) Step(format string, a ...interface{}) {
 func (c *Case) Count(name string, n int64) {
 	c.mu.Lock()
 	defer c.mu.Unlock()
+	if c.closed {
+		return
+	}
 	if c.res.Counters == nil {
 		c.res.Counters = map[string]int64{}
 	}
@@ -305,6 +312,20 @@ func RunCase(p *Prop, tier string, seed uint64, i int, stepsPath string) *Result
 		if r == nil {
 			r = c.res
 		}
+		// the case is over: a goroutine it has left behind must not touch the result while the
+		// worker encodes it (later Step / Count calls are dropped); hand out a private copy
+		c.mu.Lock()
+		c.closed = true
+		cp := *r
+		cp.Script = append([]string{}, r.Script...)
+		if r.Counters != nil {
+			cp.Counters = make(map[string]int64, len(r.Counters))
+			for k, v := range r.Counters {
+				cp.Counters[k] = v
+			}
+		}
+		c.mu.Unlock()
+		r = &cp
 		if r.FP == "" {
 			r.FP = Hash(r.Script...)
 		}
@@ -315,6 +336,9 @@ func RunCase(p *Prop, tier string, seed uint64, i int, stepsPath string) *Result
 		n := runtime.Stack(buf, true)
 		fmt.Fprintf(realStderr, "CASE-WATCHDOG property=%s case=%d\n%s\n", p.ID, i, buf[:n])
 		// copy what we can without racing too badly with the stuck goroutine
+		c.mu.Lock()
+		c.closed = true
+		c.mu.Unlock()
 		r := &Result{Index: i, Verdict: Inconclusive, Msg: "case watchdog fired after " + to.String()}
 		return r
 	}
